@@ -561,7 +561,9 @@ func callSSA(i *interpreter, caller *frame, callpos token.Pos, fn *ssa.Function,
 	if fn.Parent() == nil {
 		name := fn.String()
 		if ext := externals[name]; ext != nil {
-			return ext(fr, args)
+			if r := ext(fr, args); r != (useBody{}) {
+				return r
+			}
 		}
 		if strings.HasPrefix(name, "unique.Make[") {
 			return extUniqueMake(fr, args)
